@@ -65,7 +65,7 @@ func (r *Run) realApplyTransaction(pre *state.StateDB, tx *types.Transaction, lo
 	chain := &mockChain{parent: parent, elig: c.Elig}
 	cfg := &params.ChainConfig{ChainID: big.NewInt(1), Location: loc}
 	statedb := pre
-	gp := new(types.GasPool).AddGas(c.Pool)
+	gp := new(types.GasPool).AddGas(r.pool) // what is left of the block's pool in front of this message
 	var usedGas, usedState uint64
 	rl, pl := ^uint64(0), ^uint64(0)
 	vmcfg := vm.Config{}
